@@ -265,7 +265,10 @@ NOT_YET = 'check not built yet (build in progress, see DESIGN.md section 10)'
 
 # what later rounds (seeded changes, thorough runs, mutation sweep) added to each check
 EXTRA = {
-    'C01': 'Also: process() of programs ending in a conditional (descriptor and stats of process() = those of results()), inputs with '
+    'C01': 'Engine.tla also has the kinds dup (duplicate: tee + copy from the store), cat (concatenate) and cond (conditional) bound to the real '
+           'processors, Terminates under weak fairness, the refuted deviation DelDrains <- DelSkips, and the whole <=2/<=3-step program '
+           'universe of the model (EnginePrograms.tla) is executed under probes and trace-validated. '
+           'Also: process() of programs ending in a conditional (descriptor and stats of process() = those of results()), inputs with '
            'array/object cells and a step that edits nested values in place (a shallow copy between two lazily chained steps shows).',
     'C02': 'Typing.tla also has concatenate restricted to the first / the last resource (descriptors and streams must stay paired '
            'around the target).',
